@@ -156,3 +156,65 @@ Section SafeFix.
         rewrite M. cbn [indq]. ring.
   Qed.
 End SafeFix.
+
+(* ---- the LIVE route of the DAG models at the pinned commit: optimize_with_safety_as_subpath_constraints appends the safe
+   lists to the subpath constraints (AbstractPathModelDAG: self.subpath_constraints += self.safe_lists).  Adding SAFE lists as
+   constraints never changes feasibility of the k-model (coverage fraction <= 1, non-negative lengths). ---- *)
+Definition add_cons (I : kfd_inst) (Ss : list (list PathEnc.edge)) : kfd_inst :=
+  {| f_base := {| p_graph := p_graph (f_base I); p_k := p_k (f_base I); p_allow_empty := p_allow_empty (f_base I);
+                  p_cons := p_cons (f_base I) ++ Ss; p_cov := p_cov (f_base I); p_len := p_len (f_base I) |};
+     f_flow := f_flow I; f_ignore := f_ignore I; f_wmax := f_wmax I; f_int := f_int I |}.
+
+Lemma sumq_all_on (g : PathEnc.edge -> Q) (S L : list PathEnc.edge) : incl S L ->
+  (sumq (fun e => g e * indq (mem_edge e L)) S == sumq g S)%Q.
+Proof.
+  intros H. apply sumq_ext. intros e He. assert (M : mem_edge e L = true) by (apply mem_edge_In; apply H; exact He).
+  rewrite M. cbn [indq]. ring.
+Qed.
+
+Lemma cons_length_sumq (B : path_inst) (c : list PathEnc.edge) : (cons_length B c == sumq (elen B) c)%Q.
+Proof. unfold cons_length. induction c as [|e c IH]; cbn [fold_right sumq]; [reflexivity|rewrite IH; reflexivity]. Qed.
+
+Section SafetyAsConstraints.
+  Variable I : kfd_inst.
+  Let B := f_base I.
+  Let G := p_graph B.
+  Let k := p_k B.
+  Variable rank : node -> nat.
+  Variable Rm : nat.
+  Variable Ss : list (list PathEnc.edge).
+  Hypothesis WF : wf_graph G.
+  Hypothesis Hae : p_allow_empty B = false.
+  Hypothesis Hrank : forall u v, In (u, v) (g_edges G) -> (rank u < rank v)%nat.
+  Hypothesis HR : forall v, (rank v <= Rm)%nat.
+  Hypothesis Hcons : forall c e, In c (p_cons B ++ Ss) -> In e c -> In e (g_edges G) /\ (0 <= elen B e)%Q.
+  Hypothesis Hcov1 : (p_cov B <= 1)%Q.
+  Hypothesis Hsafe : forall P w, decomposition I P w -> constraints_covered B P ->
+      forall S, In S Ss -> exists i, In i (layers k) /\ incl S (pairs (P i)).
+
+  Theorem safety_as_constraints_preserves_feasibility :
+    (exists a, sat a (encode_kfd (add_cons I Ss))) <-> (exists a, sat a (encode_kfd I)).
+  Proof.
+    assert (Hc1 : forall c e, In c (p_cons B) -> In e c -> In e (g_edges G) /\ (0 <= elen B e)%Q)
+      by (intros c e Hc He; apply (Hcons c e); [apply in_or_app; left; exact Hc|exact He]).
+    rewrite (kfd_feasible_iff_cons (add_cons I Ss) rank Rm WF Hae Hrank HR Hcons).
+    rewrite (kfd_feasible_iff_cons I rank Rm WF Hae Hrank HR Hc1).
+    split.
+    - intros (P & w & Hd & Hcc). exists P, w. split; [exact Hd|].
+      intros n c Hn. apply (Hcc n c). cbn [add_cons f_base p_cons]. fold B. rewrite nth_error_app1; [exact Hn|].
+      apply nth_error_Some. intros En. pose proof (eq_trans (eq_sym En) Hn) as Ebad. discriminate Ebad.
+    - intros (P & w & Hd & Hcc). exists P, w. split; [exact Hd|].
+      intros n c Hn. cbn [add_cons f_base p_cons] in Hn. fold B in Hn.
+      destruct (Nat.lt_ge_cases n (length (p_cons B))) as [Hlt|Hge].
+      + rewrite nth_error_app1 in Hn by exact Hlt. exact (Hcc n c Hn).
+      + rewrite nth_error_app2 in Hn by exact Hge.
+        assert (HcS : In c Ss) by (apply nth_error_In with (n - length (p_cons B))%nat; exact Hn).
+        destruct (Hsafe P w Hd Hcc c HcS) as (i & Hi & Hincl). exists i. split; [exact Hi|].
+        change (elen (f_base (add_cons I Ss))) with (elen B). change (p_cov (f_base (add_cons I Ss))) with (p_cov B).
+        change (cons_length (f_base (add_cons I Ss)) c) with (cons_length B c).
+        rewrite (sumq_all_on (elen B) c (pairs (P i)) Hincl), cons_length_sumq.
+        assert (N0 : (0 <= sumq (elen B) c)%Q).
+        { apply sumq_nonneg. intros e He. apply (Hcons c e); [apply in_or_app; right; exact HcS|exact He]. }
+        nra.
+  Qed.
+End SafetyAsConstraints.
